@@ -2,9 +2,15 @@ import PyElf.Driver.Json
 import PyElf.Spec.Symbols
 import PyElf.Model.Env
 import PyElf.Model.Symbols
+import PyElf.Model.SymbolsDecoded
+import PyElf.Model.SymbolsFile
+import PyElf.Spec.SymbolsFile
+import PyElf.Spec.SymbolsUtf8
+import PyElf.Spec.ElfImageFast
+import PyElf.Driver.C01
 open Lean
 namespace PyElf.Driver.C03
-open PyElf PyElf.Spec PyElf.Model
+open PyElf PyElf.Spec PyElf.Spec.C03 PyElf.Model PyElf.Model.C03
 
 def jOpt (j : Json) (k : String) : Option Json :=
   match j.getObjVal? k with
@@ -44,14 +50,25 @@ def structsFor (le : Bool) (cls : Nat) (mclass : String) (sol : Bool) : Except S
   | some s => pure s
   | none => throw "no such elf bundle"
 
-/-- `ast`: the abstract tables → section contents from the Spec encoders + what must be observed -/
-def handleAst (req : Json) : Except String Json := do
+/-- the abstract tables of a request, built by the Spec builders -/
+structure Built where
+  le : Bool
+  cls : Nat
+  pad : Nat
+  names : List Bytes
+  es : List SymE
+  strtab : Bytes
+  sysv : Option SysVTable := none
+  gnu : Option GnuTable := none
+  shndx : Option (List Nat) := none
+  syminfo : Option (List (Nat × Nat)) := none
+
+def buildTables (req : Json) : Except String Built := do
   let le ← jBool req "le"
   let cls ← jNat req "cls"
   let pad ← jNat req "pad"
   let share ← jBool req "share"
   let syms0 ← (← jArr req "syms").mapM parseSym
-  let queries ← jHexList req "queries"
   let gnuReq := jOpt req "gnu"
   let sysvReq := jOpt req "sysv"
   -- the linker's order for the GNU-hashed part
@@ -63,67 +80,97 @@ def handleAst (req : Json) : Except String Json := do
   let names := syms.map (·.1)
   let (strtab, offs) := buildStrtab share names
   let es : List SymE := (syms.zip offs).map fun ((_, e), o) => { e with stName := o }
-  let n := es.length
-  let dec := genEnumDecode
-  let wfSym := es.all (SymE.WF cls) && names.all (fun nm => validUtf8 nm && nm.all (· != 0)) && (cls == 32 || cls == 64)
-  let mut out : List (String × Json) :=
-    [("symtab", jHexOf (encSymtab le cls pad es)), ("strtab", jHexOf strtab), ("n", jN n),
-     ("entsize", jN (symSize cls + pad)),
-     ("names", Json.arr (names.map jHexOf).toArray)]
-  let mut wf : List (String × Json) := [("sym", Json.bool wfSym)]
-  let mut sysvHashed : Bool := false
-  let mut gnuSo : Option Nat := none
-  match sysvReq with
-  | some s =>
-    let t ← match jOpt s "tbl" with
+  let sysvT ← match sysvReq with
+    | some s => match jOpt s "tbl" with
       | some tb => do
-          pure ({ nbucket := ← jNat tb "nbucket", nchain := ← jNat tb "nchain",
-                  buckets := ← jNats tb "buckets", chains := ← jNats tb "chains" } : SysVTable)
-      | none => do pure (buildSysV names (← jNat s "nbucket"))
-    out := out ++ [("sysv", jHexOf (encSysV le t))]
-    wf := wf ++ [("sysv", Json.bool (WFSysV names t))]
-    sysvHashed := true
-  | none => pure ()
-  match gnuReq with
-  | some g =>
-    let nb ← jNat g "nbuckets"; let so ← jNat g "symoffset"
-    let bsz ← jNat g "bloom_size"; let bsh ← jNat g "bloom_shift"
-    let t0 := buildGnu cls names nb so bsz bsh
-    let orW := (jNats g "bloom_or").toOption.getD []
-    let t := { t0 with bloom := (t0.bloom.zipIdx).map fun (w, i) => w ||| (orW.getD i 0) }
-    out := out ++ [("gnu", jHexOf (encGnu le cls t))]
-    wf := wf ++ [("gnu", Json.bool (WFGnu cls names t))]
-    gnuSo := some so
-  | none => pure ()
-  let mut extra : List (String × Json) := []
-  match jOpt req "shndx" with
-  | some _ =>
-    let ws ← jNats req "shndx"
-    out := out ++ [("shndx", jHexOf (encShndx le ws))]
-    wf := wf ++ [("shndx", Json.bool (ws.all (· < 2 ^ 32)))]
-    extra := extra ++ [("shndx", natsJson ws)]
-  | none => pure ()
-  match jOpt req "syminfo" with
-  | some (.arr a) =>
-    let si ← a.toList.mapM fun j => match j with
-      | .arr #[b, f] => do pure ((← jNatOf b), (← jNatOf f))
-      | _ => throw "bad syminfo"
-    out := out ++ [("syminfo", jHexOf (encSyminfo le si))]
-    wf := wf ++ [("syminfo", Json.bool (si.all (fun e => e.1 < 65536 && e.2 < 65536) && decide (1 ≤ si.length) && decide (si.length ≤ n)))]
-    extra := extra ++ [("syminfo", Json.arr (((si.zip names).drop 1).map fun (e, nm) =>
-        Json.arr #[(obsSyminfo dec e).toJson, Json.mkObj [("b", Json.str nm.toHex)]]).toArray)]
-  | _ => pure ()
-  let symbols := Json.arr ((es.zip names).map fun (e, nm) =>
-      Json.arr #[(obsEntry dec cls e).toJson, Json.mkObj [("b", Json.str nm.toHex)]]).toArray
+          pure (some ({ nbucket := ← jNat tb "nbucket", nchain := ← jNat tb "nchain",
+                        buckets := ← jNats tb "buckets", chains := ← jNats tb "chains" } : SysVTable))
+      | none => do pure (some (buildSysV names (← jNat s "nbucket")))
+    | none => pure none
+  let gnuT ← match gnuReq with
+    | some g => do
+      let nb ← jNat g "nbuckets"; let so ← jNat g "symoffset"
+      let bsz ← jNat g "bloom_size"; let bsh ← jNat g "bloom_shift"
+      let t0 := buildGnu cls names nb so bsz bsh
+      let orW := (jNats g "bloom_or").toOption.getD []
+      pure (some { t0 with bloom := (t0.bloom.zipIdx).map fun (w, i) => w ||| (orW.getD i 0) })
+    | none => pure none
+  let shndx ← match jOpt req "shndx" with
+    | some _ => do pure (some (← jNats req "shndx"))
+    | none => pure none
+  let syminfo ← match jOpt req "syminfo" with
+    | some (.arr a) => do
+      let si ← a.toList.mapM fun j => match j with
+        | .arr #[b, f] => do pure ((← jNatOf b), (← jNatOf f))
+        | _ => throw "bad syminfo"
+      pure (some si)
+    | _ => pure none
+  return { le, cls, pad, names, es, strtab, sysv := sysvT, gnu := gnuT, shndx, syminfo }
+
+/-- the names as Python reports them: `bytes.decode('utf-8', errors='replace')` -/
+def Built.reported (b : Built) : List Bytes := b.names.map utf8Replace
+
+/-- what the property says must be observed of the tables (names as reported; for hash lookups of a query:
+    `sysv` / `gnu` = the symbols that MUST be found — their name bytes are the query —, `sysv_may` / `gnu_may` =
+    the symbols that may be returned — reported under the query) -/
+def Built.expect (b : Built) (queries : List Bytes) : Json :=
+  let dec := genEnumDecode
+  let n := b.es.length
+  let rep := b.reported
+  let symbols := Json.arr ((b.es.zip rep).map fun (e, nm) =>
+      Json.arr #[(obsEntry dec b.cls e).toJson, Json.mkObj [("b", Json.str nm.toHex)]]).toArray
   let qs := queries.map fun q =>
-    let idx := byName names q
+    let idx := byName rep q
+    let must := byName b.names q
     Json.mkObj ([("byname", natsJson idx)]
-      ++ (if sysvHashed then [("sysv", natsJson (idx.filter (1 ≤ ·)))] else [])
-      ++ (match gnuSo with
-          | some so => [("gnu", natsJson (idx.filter (so ≤ ·)))]
+      ++ (if b.sysv.isSome then [("sysv", natsJson (must.filter (1 ≤ ·))), ("sysv_may", natsJson (idx.filter (1 ≤ ·)))] else [])
+      ++ (match b.gnu with
+          | some t => [("gnu", natsJson (must.filter (t.symoffset ≤ ·))), ("gnu_may", natsJson (idx.filter (t.symoffset ≤ ·)))]
           | none => []))
-  out := out ++ [("wf", Json.mkObj wf),
-                 ("expect", Json.mkObj ([("symbols", symbols), ("queries", Json.arr qs.toArray), ("count", jN n)] ++ extra))]
+  let extra : List (String × Json) :=
+    (match b.shndx with
+     | some ws => [("shndx", natsJson ws)]
+     | none => []) ++
+    (match b.syminfo with
+     | some si => [("syminfo", Json.arr (((si.zip rep).drop 1).map fun (e, nm) =>
+        Json.arr #[(obsSyminfo dec e).toJson, Json.mkObj [("b", Json.str nm.toHex)]]).toArray)]
+     | none => [])
+  Json.mkObj ([("symbols", symbols), ("queries", Json.arr qs.toArray), ("count", jN n)] ++ extra)
+
+/-- `ast`: the abstract tables → section contents from the Spec encoders + what must be observed -/
+def handleAst (req : Json) : Except String Json := do
+  let b ← buildTables req
+  let queries ← jHexList req "queries"
+  let n := b.es.length
+  -- names are arbitrary NUL-free byte strings (valid UTF-8 or not: the reported name is `utf8Replace` of them)
+  let wfSym := b.es.all (SymE.WF b.cls) && b.names.all (fun nm => nm.all (· != 0)) && (b.cls == 32 || b.cls == 64)
+  let mut out : List (String × Json) :=
+    [("symtab", jHexOf (encSymtab b.le b.cls b.pad b.es)), ("strtab", jHexOf b.strtab), ("n", jN n),
+     ("entsize", jN (symSize b.cls + b.pad)),
+     ("names", Json.arr (b.names.map jHexOf).toArray),
+     ("utf8", Json.bool (b.names.all validUtf8))]
+  let mut wf : List (String × Json) := [("sym", Json.bool wfSym)]
+  match b.sysv with
+  | some t =>
+    out := out ++ [("sysv", jHexOf (encSysV b.le t))]
+    wf := wf ++ [("sysv", Json.bool (WFSysV b.names t))]
+  | none => pure ()
+  match b.gnu with
+  | some t =>
+    out := out ++ [("gnu", jHexOf (encGnu b.le b.cls t))]
+    wf := wf ++ [("gnu", Json.bool (WFGnu b.cls b.names t))]
+  | none => pure ()
+  match b.shndx with
+  | some ws =>
+    out := out ++ [("shndx", jHexOf (encShndx b.le ws))]
+    wf := wf ++ [("shndx", Json.bool (ws.all (· < 2 ^ 32)))]
+  | none => pure ()
+  match b.syminfo with
+  | some si =>
+    out := out ++ [("syminfo", jHexOf (encSyminfo b.le si))]
+    wf := wf ++ [("syminfo", Json.bool (si.all (fun e => e.1 < 65536 && e.2 < 65536) && decide (1 ≤ si.length) && decide (si.length ≤ n)))]
+  | none => pure ()
+  out := out ++ [("wf", Json.mkObj wf), ("expect", b.expect queries)]
   return Json.mkObj out
 
 /-- `run`: the hand-written model on the bytes of a whole file, given the header fields the code reads -/
@@ -140,14 +187,14 @@ def handleRun (req : Json) : Except String Json := do
   let strOff ← jNat req "strtab_off"
   let strType ← jStr symJ "link_type"
   let queries := (jHexList req "queries").toOption.getD []
-  let getSym := getSymbol S env data h strOff
+  let getSym := getSymbolD S env data h strOff
   -- constructing the SymbolTableSection: link check, then the two asserts
   let init : R Unit := do
     linkedStrtabCheck (.str strType)
     symtabInit h
   let mut out : List (String × Json) := [("init", resJson (fun _ => Json.null) init)]
   if init.isOk then
-    let all := iterSymbols S env data h strOff
+    let all := iterSymbolsD S env data h strOff
     -- the queries are made in order on ONE section object.  `_symbol_name_map` is published only when
     -- complete (fix 31a474f), so a call that raises leaves no state behind: every call behaves like the first
     let byName (_i : Nat) (q : Bytes) : R (Option (List Symbol)) :=
@@ -207,7 +254,7 @@ def handleRun (req : Json) : Except String Json := do
     match linked with
     | .ok _ =>
       out := out ++ [("syminfo_num", resJson jI (syminfoNum sh)),
-                     ("syminfo", resJson (fun l => Json.arr (l.map symJson).toArray) (syminfoIter S env data sh h strOff))]
+                     ("syminfo", resJson (fun l => Json.arr (l.map symJson).toArray) (syminfoIterD S env data sh h strOff))]
     | .error e => out := out ++ [("syminfo", resJson (fun _ => Json.null) (.error e : R Unit))]
   | none => pure ()
   return Json.mkObj [("model", Json.mkObj out)]
@@ -218,12 +265,200 @@ def handleHash (req : Json) : Except String Json := do
   return Json.mkObj [("elf_model", jI (Gen.Pure.elf_hash name)), ("elf_expect", jN (elfHash32 name).toNat),
                      ("gnu_model", jI (Gen.Pure.gnu_hash name)), ("gnu_expect", jN (gnuHash32 name).toNat)]
 
+/-! ### whole files: abstract ELF images (C01's `ElfDesc`) holding the tables -/
+
+/-- everything the harness observes of a section object (`Model.C03.getSymSection` mirrors how
+    `ELFFile.get_section` builds it); names through the decoding model -/
+def observeObj (S : ElfStructs) (le : Bool) (cls : Nat) (data : Bytes) (obj : SymObj) (queries : List Bytes)
+    (gets : List Nat) : Json :=
+  let env := elfEnv
+  let symsJ (l : List Symbol) : Json := Json.arr (l.map symJson).toArray
+  match obj with
+  | .symtab h strOff =>
+    let getSym := getSymbolD S env data h strOff
+    let all := iterSymbolsD S env data h strOff
+    let byName (q : Bytes) : R (Option (List Symbol)) :=
+      match all with
+      | .ok l => getSymbolByNameFrom getSym (buildNameMap l) q
+      | .error e => .error e
+    Json.mkObj [
+      ("kind", Json.str "SymbolTableSection"),
+      ("num", resJson jN (numSymbols h)),
+      ("symbols", resJson symsJ all),
+      ("byname", Json.arr (queries.map fun q =>
+          resJson (fun r => match r with
+                            | some l => symsJ l
+                            | none => Json.null) (byName q)).toArray),
+      ("get", Json.arr (gets.map fun n => resJson symJson (getSym n)).toArray)]
+  | .shndx h link =>
+    Json.mkObj [
+      ("kind", Json.str "SymbolTableIndexSection"), ("symboltable", jN link),
+      ("get", Json.arr (gets.map fun n => resJson Val.toJson (getSectionIndex S env data h n)).toArray)]
+  | .syminfo h symH strOff =>
+    Json.mkObj [
+      ("kind", Json.str "SUNWSyminfoTableSection"),
+      ("num", resJson jI (syminfoNum h)),
+      ("symbols", resJson symsJ (syminfoIterD S env data h symH strOff))]
+  | .sysv params symH strOff =>
+    let getSym := getSymbolD S env data symH strOff
+    Json.mkObj [
+      ("kind", Json.str "ELFHashSection"),
+      ("count", resJson Val.toJson (elfHashCount params)),
+      ("lookup", Json.arr (queries.map fun q => resJson optSymJson (elfHashGetSymbol params getSym q)).toArray)]
+  | .gnu g symH strOff =>
+    let getSym := getSymbolD S env data symH strOff
+    Json.mkObj [
+      ("kind", Json.str "GNUHashSection"),
+      ("count", resJson jN (gnuHashCount le data g)),
+      ("lookup", Json.arr (queries.map fun q => resJson optSymJson (gnuHashGetSymbol le cls data g getSym q)).toArray)]
+  | .other kind => Json.mkObj [("kind", Json.str kind)]
+
+def modelObserve (data : Bytes) (sec : Nat) (queries : List Bytes) (gets : List Nat) : R Json := do
+  let f ← openElf elfEnv elfStructsFor machineClassOf data
+  return observeObj f.S f.le f.cls data (← getSymSection elfEnv f sec) queries gets
+
+def modelObserveByName (data : Bytes) (name : Bytes) (queries : List Bytes) (gets : List Nat) : R Json := do
+  let f ← openElf elfEnv elfStructsFor machineClassOf data
+  match ← getSymSectionByName elfEnv f name with
+  | some obj => return observeObj f.S f.le f.cls data obj queries gets
+  | none => return Json.mkObj [("kind", Json.null)]
+
+def modelCompanion (data : Bytes) (symIdx : Nat) : R Json := do
+  let f ← openElf elfEnv elfStructsFor machineClassOf data
+  match ← shndxCompanion elfEnv f symIdx with
+  | some (i, _) => return jN i
+  | none => return Json.null
+
+def optNatJ : Option Nat → Json
+  | some n => jN n
+  | none => Json.null
+
+/-- `file`: an abstract image (JSON of `Spec.ElfDesc`, laid out by the harness: sections in any order, anywhere)
+    whose sections hold the tables of the request; bytes by the Spec assembler; `wf` = the Spec's predicates on
+    the DESCRIPTION (hypotheses of the `_file_exact` theorems); expectation; model by index and by name -/
+def handleFile (req : Json) : Except String Json := do
+  let b ← buildTables req
+  let d ← C01.descOfJson (← req.getObjVal? "desc")
+  let queries ← jHexList req "queries"
+  let gets := (jNats req "get").toOption.getD []
+  let tail := (jNat req "tail").toOption.getD 0
+  let idx ← req.getObjVal? "idx"
+  let sec ← jNat idx "sym"
+  let secNames := (jHexList req "secnames").toOption.getD []
+  match d.assembleFast tail with
+  | none => return Json.mkObj [("wf", Json.mkObj [("sym", Json.bool false)]), ("why", "not encodable")]
+  | some bytes =>
+    let env := elfEnv
+    let small := decide (bytes.length < 2 ^ 63)
+    let observable := (d.observe env).toOption.isSome
+    let mut wf : List (String × Json) :=
+      [("sym", Json.bool (symFileWf env d sec b.es b.names && small)), ("observable", Json.bool observable),
+       ("core", Json.bool (wfZCore env d))]
+    let mut model : List (String × Json) := [("sym", resJson id (modelObserve bytes sec queries gets))]
+    match b.sysv, (jNat idx "sysv").toOption with
+    | some t, some hsec =>
+      wf := wf ++ [("sysv", Json.bool (sysvFileWf env d hsec sec b.es b.names t && small))]
+      model := model ++ [("sysv", resJson id (modelObserve bytes hsec queries gets))]
+    | _, _ => pure ()
+    match b.gnu, (jNat idx "gnu").toOption with
+    | some t, some hsec =>
+      wf := wf ++ [("gnu", Json.bool (gnuFileWf env d hsec sec b.es b.names t && small))]
+      model := model ++ [("gnu", resJson id (modelObserve bytes hsec queries gets))]
+    | _, _ => pure ()
+    match b.syminfo, (jNat idx "syminfo").toOption with
+    | some si, some isec =>
+      wf := wf ++ [("syminfo", Json.bool (syminfoFileWf env d isec sec b.es b.names si && small))]
+      model := model ++ [("syminfo", resJson id (modelObserve bytes isec queries gets))]
+    | _, _ => pure ()
+    match b.shndx, (jNat idx "shndx").toOption with
+    | some ws, some xsec =>
+      wf := wf ++ [("shndx", Json.bool (shndxFileWf env d xsec (hdrNat d xsec "sh_link") ws && small))]
+      model := model ++ [("shndx", resJson id (modelObserve bytes xsec queries gets)),
+                         ("companion", resJson id (modelCompanion bytes sec))]
+    | _, _ => pure ()
+    let byName := Json.arr (secNames.map fun nm => resJson id (modelObserveByName bytes nm queries gets)).toArray
+    let idxOf := Json.arr (secNames.map fun nm => optNatJ (d.indexOfName nm)).toArray
+    return Json.mkObj [("bytes", jHexOf bytes), ("wf", Json.mkObj wf), ("expect", b.expect queries),
+      ("model", Json.mkObj model), ("modelByName", byName), ("indexOfName", idxOf),
+      ("companionExpect", optNatJ (shndxTablesFor env d sec).getLast?),
+      ("linkOf", Json.mkObj ((match (jNat idx "shndx").toOption with
+                              | some x => [("shndx", jN (hdrNat d x "sh_link"))]
+                              | none => []))),
+      ("utf8", Json.bool (b.names.all validUtf8))]
+
+/-- the error `get_section(sec)` must raise according to the bad-link theorems of `Props/C03.lean`
+    (`link_wrong_type_error`, `link_beyond_file_error`, `link_truncated_header_error`, their `_nested_`
+    forms) — `none` where those theorems do not decide (good links, stray headers inside the file) -/
+def linkExpect (env : Env) (d : ElfDesc) (bytes : Bytes) (sec : Nat) : Option Err :=
+  let shdrSize := 16 + 6 * (d.cls / 8)
+  let direct (v : LinkVerdict) : Option Err :=
+    match v with
+    | .wrongType _ => some .elfError
+    | .outOfRange l =>
+      let pos := d.shoff + l * d.shentsize
+      if bytes.length < pos then some .typeError
+      else if bytes.length < pos + shdrSize then some .elfParseError
+      else none
+    | _ => none
+  match linkVerdict env d sec with
+  | some (.linked l) =>
+    match linkVerdict env d l with
+    | some (.wrongType _) => some .elfError
+    | some (.outOfRange l2) => if bytes.length < d.shoff + l2 * d.shentsize then some .typeError else none
+    | _ => none
+  | some v => direct v
+  | none => none
+
+def verdictJson : Option LinkVerdict → Json
+  | some (.linked l) => Json.arr #[Json.str "linked", jN l]
+  | some (.wrongType l) => Json.arr #[Json.str "wrongType", jN l]
+  | some (.outOfRange l) => Json.arr #[Json.str "outOfRange", jN l]
+  | some .unchecked => Json.arr #[Json.str "unchecked"]
+  | none => Json.null
+
+/-- `link`: an abstract image whose links are arbitrary; for each listed section the Spec's verdict on its
+    link, the error the theorems prescribe (where they decide), and the model's `get_section` -/
+def handleLink (req : Json) : Except String Json := do
+  let d ← C01.descOfJson (← req.getObjVal? "desc")
+  let tail := (jNat req "tail").toOption.getD 0
+  let secs ← jNats req "secs"
+  match d.assembleFast tail with
+  | none => return Json.mkObj [("core", Json.bool false), ("why", "not encodable")]
+  | some bytes =>
+    let env := elfEnv
+    let core := wfZCore env d && decide (bytes.length < 2 ^ 63)
+    let rows := secs.map fun sec =>
+      let model : R Json := do
+        let f ← openElf env elfStructsFor machineClassOf bytes
+        match ← getSymSection env f sec with
+        | .symtab .. => pure (Json.str "SymbolTableSection")
+        | .shndx _ l => pure (Json.arr #[Json.str "SymbolTableIndexSection", jN l])
+        | .syminfo .. => pure (Json.str "SUNWSyminfoTableSection")
+        | .sysv .. => pure (Json.str "ELFHashSection")
+        | .gnu .. => pure (Json.str "GNUHashSection")
+        | .other k => pure (Json.str k)
+      Json.mkObj [("sec", jN sec), ("verdict", verdictJson (linkVerdict env d sec)),
+        ("expect", match linkExpect env d bytes sec with
+                   | some e => Json.str e.name
+                   | none => Json.null),
+        ("model", resJson id model)]
+    return Json.mkObj [("bytes", jHexOf bytes), ("core", Json.bool core), ("wfz", Json.bool (d.wfZ env)),
+      ("rows", Json.arr rows.toArray)]
+
+/-- `utf8`: `bytes.decode('utf-8', errors='replace')` per the Unicode Standard, and well-formedness -/
+def handleUtf8 (req : Json) : Except String Json := do
+  let name ← jHex req "name"
+  return Json.mkObj [("replace", jHexOf (utf8Replace name)), ("valid", Json.bool (validUtf8 name))]
+
 def handle (req : Json) : Except String Json := do
   let k ← jStr req "k"
   match k with
   | "ast" => handleAst req
   | "run" => handleRun req
   | "hash" => handleHash req
+  | "file" => handleFile req
+  | "link" => handleLink req
+  | "utf8" => handleUtf8 req
   | _ => throw s!"C03: unknown kind {k}"
 
 end PyElf.Driver.C03
